@@ -10,9 +10,13 @@ Local Open Scope list_scope.
     and rustc only hand over well-formed attributes). *)
 Fixpoint parse_outer (ts : toks) : result (list attr * toks) :=
   match ts with
-  | TP "#"%char :: TG Bracket inner :: rest =>
-      let* (more, rest') := parse_outer rest in Ok (inner :: more, rest')
-  | TP "#"%char :: _ => Err ESyn
+  | TP c :: rest0 =>
+      if Ascii.eqb c "#"%char then
+        match rest0 with
+        | TG Bracket inner :: rest => let* (more, rest') := parse_outer rest in Ok (inner :: more, rest')
+        | _ => Err ESyn
+        end
+      else Ok ([], ts)
   | _ => Ok ([], ts)
   end.
 
@@ -30,36 +34,26 @@ Definition classify (ts : toks) : result (kind * bool * bool) :=
   let '(_, r1) := parse_vis r0 in
   let '(uns, r2) := skip_id "unsafe" r1 in
   let '(aut, r3) := skip_id "auto" r2 in
-  match r3 with
-  | TId "trait" :: _ => Ok (KTrait, uns, aut)
-  | TId "impl" :: _ => Ok (KImpl, uns, aut)
-  | TId "mod" :: _ => Ok (KMod, uns, aut)
-  | _ => Ok (KFn, uns, aut)
-  end.
+  if fst (skip_id "trait" r3) then Ok (KTrait, uns, aut)
+  else if fst (skip_id "impl" r3) then Ok (KImpl, uns, aut)
+  else if fst (skip_id "mod" r3) then Ok (KMod, uns, aut)
+  else Ok (KFn, uns, aut).
 
 (** ** [peek_fn]: [fn], or [const? async? unsafe? (extern "abi"?)? fn] *)
 Definition skip_abi (ts : toks) : toks :=
-  match ts with
-  | TId "extern" :: TLit _ :: rest => rest
-  | TId "extern" :: rest => rest
-  | _ => ts
-  end.
+  let '(is_extern, rest) := skip_id "extern" ts in
+  if is_extern then match rest with TLit _ :: rest' => rest' | _ => rest end else ts.
 
 Definition peek_fn (ts : toks) : bool :=
-  match ts with
-  | TId "fn" :: _ => true
-  | _ =>
+  if fst (skip_id "fn" ts) then true
+  else
       let r1 := snd (skip_id "const" ts) in
       let r2 := snd (skip_id "async" r1) in
       let r3 := snd (skip_id "unsafe" r2) in
-      match skip_abi r3 with
-      | TId "fn" :: _ => true
-      | _ => false
-      end
-  end.
+      fst (skip_id "fn" (skip_abi r3)).
 
 (** ** [parse_matched_braces_or_ending_semi] *)
-Definition is_semi (t : tt) : bool := match t with TP ";"%char => true | _ => false end.
+Definition is_semi (t : tt) : bool := match t with TP c => Ascii.eqb c ";"%char | _ => false end.
 Definition is_brace (t : tt) : bool := match t with TG Brace _ => true | _ => false end.
 
 (** tokens up to and including the first top-level brace group or [;]; [None] = "Read past the end" *)
@@ -122,12 +116,11 @@ Definition parse_body_item (in_mod : bool) (sigs : list sig_at) (pos : nat) (ts 
         let sig_toks := firstn (sa_len sa) r1 in
         let r2 := skipn (sa_len sa) r1 in
         let faithful := toks_eqb (print_sig (sa_sig sa)) sig_toks in
-        match r2 with
-        | TP ";"%char :: r3 => Ok (BUnknown attrs v (sig_toks ++ [pc ";"]), faithful, r3)
-        | _ =>
+        if match r2 with t :: _ => is_semi t | [] => false end
+        then Ok (BUnknown attrs v (sig_toks ++ [pc ";"]), faithful, tl r2)
+        else
             let* (body, r3) := matched_braces_or_semi r2 in
             Ok (BFn attrs v (sa_sig sa) body, faithful, r3)
-        end
     end
   else
     let* (tokens, r2) := matched_braces_or_semi r1 in
